@@ -354,6 +354,7 @@ def gen_cases(ctx, rng, add, impl_only, doc_expect):
         f64.add(rng.getrandbits(52))                               # denormal
         f64.add((rng.randrange(1, 16) << 52) | rng.getrandbits(52))  # lowest binades
     f64.add(32242815376328263)           # 1.6509595210255934e-306: the recorded replay of the known grisu3 finding
+    f64.add(9223372069417456422)         # -1.6088101828e-313: its (rare) denormal variant
     f32 = sorted(b for b in f32 if U.finite32(b)); f64 = sorted(b for b in f64 if U.finite64(b))
     f64.remove(32242815376328263); f64.insert(0, 32242815376328263)
     for b in f32:
@@ -366,7 +367,7 @@ def gen_cases(ctx, rng, add, impl_only, doc_expect):
     ftexts = set(['0', '-0', '0.0', '1', '-1', '0.1', '0.5', '1e0', '1E0', '1e+0', '1e-0', '123456789012345678', '1e22', '1e23', '9007199254740993', '9007199254740995',
                   '1.7976931348623157e308', '1.7976931348623158e308', '1.7976931348623159e308', '1e308', '1e309', '1e400', '-1e400', '4.9e-324', '5e-324', '2.4703282292062327e-324',
                   '2.4703282292062328e-324', '2.5e-324', '1e-400', '3.4028234e38', '3.4028235e38', '3.4028236e38', '3.5e38', '1e39', '1.4e-45', '7e-46', '7.1e-46', '1e-46',
-                  '8.408273894908684e-308', '1.6509595210255934e-306', '2.2250738585072014e-308', '2.225073858507201e-308', '0.000001', '100', '1000000', '123.456', '0.30000000000000004'])
+                  '8.408273894908684e-308', '1.6509595210255934e-306', '8981.02305e-317', '5329518.9303924732580e-318', '6.665684465322710663031095e-307', '2.2250738585072014e-308', '2.225073858507201e-308', '0.000001', '100', '1000000', '123.456', '0.30000000000000004'])
     for _ in range(3000 if T else 500):
         nd = rng.choice([1, 2, 5, 9, 15, 16, 17, 17, 18, 19, 20, 21, 25])
         ds = str(rng.randrange(10 ** (nd - 1), 10 ** nd))
@@ -492,7 +493,8 @@ def judge_impl_only(ctx, klass, line, i, doc_expect, oracle_q):
         val = U.bits2f(bits) if w == 32 else U.bits2d(bits)
         if int(pbits) != bits or int(pk) != len(text):
             rkey = '%s-roundtrip' % name
-            if w == 64 and in_grisu_class(bits) and int(pk) == len(text) and abs(int(pbits) - bits) == 1: rkey += ':' + GRISU_CLASS
+            if w == 64 and int(pk) == len(text) and abs(int(pbits) - bits) == 1 and ((bits >> 52) & 0x7ff) <= 11:
+                rkey += ':' + (GRISU_CLASS if in_grisu_class(bits) else 'grisu3-diy-fp:denormal-one-ulp')
             viol(ctx, rkey, 'print_%s(bits %d = %r) = "%s", parse_%s gives bits %s (consumed %s of %d): print then parse is not the identity'
                  % (name, bits, val, text, name, pbits, pk, len(text)), line, None, i, {'text': text})
         elif jb != str(bits) or int(jk) != len(text):
@@ -641,9 +643,13 @@ def sweeps(ctx, rng, exe_fast, exe_san, model):
                            ('jtyp u%d %s' % (w, U.hx(str(first).encode() + b'}')), True), ('jtyp i%d %s' % (w, U.hx(str(s).encode() + b'}')), True)]
             else:
                 follow.append((('rtf %d' if cmd == 'fsweep32' else 'rtd %d') % first, False))
-                if cmd == 'frand64' and len(r) >= 7 and int(r[5]) != 0:
-                    ctx.log('sweep %s: %s mismatches outside biased exponent 2..11, first at %s' % (line, r[5], r[6]))
-                    follow.append(('rtd %s' % r[6], False))
+                if cmd == 'frand64' and len(r) >= 9:
+                    if int(r[5]) != 0:
+                        ctx.log('sweep %s: %s mismatches outside the known grisu3 classes, first at %s' % (line, r[5], r[6]))
+                        follow.append(('rtd %s' % r[6], False))
+                    if int(r[7]) != 0:
+                        ctx.log('sweep %s: %s one-ulp denormal mismatches, first at %s' % (line, r[7], r[8]))
+                        follow.append(('rtd %s' % r[8], False))
             ctx.sweep_bad = getattr(ctx, 'sweep_bad', []) + [(line, rep[0])]
     if follow:
         nv = getattr(ctx, 'nviol_calls', 0)
